@@ -14,7 +14,7 @@ import (
 	hatypes "github.com/jcmoraisjr/haproxy-ingress/pkg/haproxy/types"
 )
 
-var c04Paths = []string{"/", "/app", "/app/", "/app1", "/app/sub", "/App", "/app/sub/x", "/ap", "/api"}
+var c04Paths = []string{"/", "/app", "/app/", "/app1", "/app/sub", "/App", "/app/sub/x", "/ap", "/api", "/App/Sub", "/a/b/c/d", "/a/b/c", "/a/b", "/a"}
 var c04Hosts = []string{"d1.local", "d2.local", "sub.d1.local", "d3.local"}
 
 func genC04(seed uint64, tier string) *RunConfig {
@@ -32,10 +32,13 @@ func genC04(seed uint64, tier string) *RunConfig {
 	for i := 0; i < n; i++ {
 		h := c04Hosts[r.IntN(nh)]
 		p := c04Paths[r.IntN(len(c04Paths))]
+		t := []string{"exact", "prefix", "begin"}[r.IntN(3)]
 		if _, avoid := avoidFlags(); avoid["no_case_variant_paths"] && p != strings.ToLower(p) {
 			continue
 		}
-		t := []string{"exact", "prefix", "begin"}[r.IntN(3)]
+		if _, avoid := avoidFlags(); avoid["no_upper_case_prefix"] && p != strings.ToLower(p) && t == "prefix" {
+			continue
+		}
 		k := h + "#" + p + "#" + t
 		if seen[k] {
 			continue
@@ -43,8 +46,8 @@ func genC04(seed uint64, tier string) *RunConfig {
 		seen[k] = true
 		rc.Ops = append(rc.Ops, Op{Type: "rule", Kind: h, Key: p, Note: t})
 	}
-	if _, avoid := avoidFlags(); avoid["no_alternating_nesting"] {
-		rc.Ops = dropAlternatingNesting(rc.Ops)
+	if _, avoid := avoidFlags(); avoid["no_partial_segment_begin"] {
+		rc.Ops = dropPartialSegmentBegin(rc.Ops)
 	}
 	return rc
 }
@@ -165,32 +168,29 @@ func init() {
 	register(&Profile{Name: "maps", Prop: "C04", Custom: runC04, Oracles: OracleSet{Property: "C04"}, Build: genC04})
 }
 
-// dropAlternatingNesting removes rules until no host has three nested paths
-// p1 > p2 > p3 whose non-exact types alternate (t1 == t3 != t2).
-func dropAlternatingNesting(ops []Op) []Op {
-	nested := func(long, short string) bool {
-		return long != short && strings.HasPrefix(strings.ToLower(long), strings.ToLower(short))
-	}
-	for {
-		drop := -1
-		for i, a := range ops {
-			if a.Type != "rule" || a.Note == "exact" {
-				continue
-			}
+// partialSegment: short is a string prefix of long that ends inside a path
+// segment of long (/ap under /app/, /app under /app1).
+func partialSegment(long, short string) bool {
+	l, s := strings.ToLower(long), strings.ToLower(short)
+	return len(l) > len(s) && strings.HasPrefix(l, s) && !strings.HasSuffix(s, "/") && l[len(s)] != '/'
+}
+
+// dropPartialSegmentBegin removes begin rules whose path ends inside a segment
+// of a longer non-exact path of the same host.
+func dropPartialSegmentBegin(ops []Op) []Op {
+	var out []Op
+	for _, a := range ops {
+		drop := false
+		if a.Type == "rule" && a.Note == "begin" {
 			for _, b := range ops {
-				if b.Type != "rule" || b.Kind != a.Kind || b.Note == "exact" || b.Note == a.Note || !nested(a.Key, b.Key) {
-					continue
-				}
-				for _, c := range ops {
-					if c.Type == "rule" && c.Kind == a.Kind && c.Note == a.Note && nested(b.Key, c.Key) {
-						drop = i
-					}
+				if b.Type == "rule" && b.Kind == a.Kind && b.Note != "exact" && partialSegment(b.Key, a.Key) {
+					drop = true
 				}
 			}
 		}
-		if drop < 0 {
-			return ops
+		if !drop {
+			out = append(out, a)
 		}
-		ops = append(append([]Op{}, ops[:drop]...), ops[drop+1:]...)
 	}
+	return out
 }
